@@ -18,7 +18,7 @@ type extState struct {
 	restores       []*restoreOp
 
 	// C09
-	verifies map[uint64]*verifyOp // by call id
+	verifies  map[uint64]*verifyOp // by call id
 	verByInst map[instKey][]*verifyOp
 	recent    map[instKey][]recentAck
 
@@ -27,64 +27,64 @@ type extState struct {
 	cutM      map[[2]string]bool
 
 	// C14
-	pvIso map[string]*pvIso
+	pvIso  map[string]*pvIso
 	pvDone []*pvIso
 }
 
 type restoreOp struct {
-	call      *call
-	key       instKey
+	call                                    *call
+	key                                     instKey
 	latest, committed, lastIndex, metaIndex uint64
-	entered   bool
-	enterSeq  uint64
-	done      bool
-	burned    uint64
-	content   string
-	fsmSeen   bool
-	assignedBefore uint64
+	entered                                 bool
+	enterSeq                                uint64
+	done                                    bool
+	burned                                  uint64
+	content                                 string
+	fsmSeen                                 bool
+	assignedBefore                          uint64
 }
 
 type verifyOp struct {
-	call   *call
-	key    instKey
-	term   uint64
-	quorum int
-	voters []string
-	acks   map[string]bool // voters whose successful AE response was received in the window
-	stale  map[string]bool // ... whose request had left before the call was made
+	call         *call
+	key          instKey
+	term         uint64
+	quorum       int
+	voters       []string
+	acks         map[string]bool // voters whose successful AE response was received in the window
+	stale        map[string]bool // ... whose request had left before the call was made
 	nonvoterAcks int
-	started bool
-	startSeq uint64
-	preTerm uint64
+	started      bool
+	startSeq     uint64
+	preTerm      uint64
 }
 
 type leaseCut struct {
-	key    instKey
-	t      int64
-	seq    uint64
+	key     instKey
+	t       int64
+	seq     uint64
 	leaseMs int64
-	downT  int64
-	down   bool
-	shape  string
+	downT   int64
+	down    bool
+	shape   string
 	healSeq uint64
-	goneT  int64 // when the incarnation crashed / was shut down
-	void   bool
-	rec    *leaderRec
+	goneT   int64 // when the incarnation crashed / was shut down
+	void    bool
+	rec     *leaderRec
 }
 
 type pvIso struct {
-	name   string
-	t0, t1 int64
-	seq0   uint64
-	termAt uint64
+	name                  string
+	t0, t1                int64
+	seq0                  uint64
+	termAt                uint64
 	wasFollowerWithLeader bool
-	healed bool
-	maxTermAfterSettle uint64
-	bumps  int
-	leaderAtHeal string
-	termAtHeal   uint64
-	clusterTermAtHeal uint64
-	eligible, checked bool
+	healed                bool
+	maxTermAfterSettle    uint64
+	bumps                 int
+	leaderAtHeal          string
+	termAtHeal            uint64
+	clusterTermAtHeal     uint64
+	eligible, checked     bool
 }
 
 func (x *extState) init() {
@@ -135,6 +135,16 @@ func (c *checker) checkStarted(s *server, e *sim.Ev) {
 	}
 	if term > s.maxTerm {
 		s.maxTerm = term
+	}
+	// the snapshot position it works from names an entry of the committed history: a restart
+	// must not resume with a last-entry term the cluster never had at that index
+	if si, stt := e.E, e.F; si > 0 {
+		c.cov("restart-snapshot-position-checked")
+		if en, ok := d.logs[si]; ok && en.T != stt {
+			c.violate("C10", "restart-wrong-snapshot-term", e.Seq, "%s restarted with snapshot position (%d, term %d) but its own log holds term %d at that index", key, si, stt, en.T)
+		} else if g := c.G[si]; !ok && g != nil && g.term != stt {
+			c.violate("C10", "restart-wrong-snapshot-term", e.Seq, "%s restarted with snapshot position (%d, term %d) but the committed entry %d has term %d", key, si, stt, si, g.term)
+		}
 	}
 	// the image may have changed between Lstart and Lstarted only through the
 	// new incarnation itself (it is the only writer), so the current
@@ -260,13 +270,15 @@ func (x *extState) hook(c *checker, s *server, key instKey, e *sim.Ev) {
 	}
 }
 
-func (x *extState) nemesis(c *checker, e *sim.Ev)                                         { x.nemesisExt(c, e) }
-func (x *extState) deliver(c *checker, r *rpcRec, e *sim.Ev)                              {}
-func (x *extState) recv(c *checker, r *rpcRec, e *sim.Ev)                                 { x.verifyRecv(c, r, e) }
-func (x *extState) resp(c *checker, r *rpcRec, e *sim.Ev)                                 {}
-func (x *extState) term(c *checker, s *server, key instKey, old, nw uint64, e *sim.Ev)    { x.pvTerm(c, s, key, old, nw, e) }
+func (x *extState) nemesis(c *checker, e *sim.Ev)            { x.nemesisExt(c, e) }
+func (x *extState) deliver(c *checker, r *rpcRec, e *sim.Ev) {}
+func (x *extState) recv(c *checker, r *rpcRec, e *sim.Ev)    { x.verifyRecv(c, r, e) }
+func (x *extState) resp(c *checker, r *rpcRec, e *sim.Ev)    {}
+func (x *extState) term(c *checker, s *server, key instKey, old, nw uint64, e *sim.Ev) {
+	x.pvTerm(c, s, key, old, nw, e)
+}
 func (x *extState) installApplied(c *checker, s *server, key instKey, old, nw uint64, e *sim.Ev) {}
-func (x *extState) leaderCommit(c *checker, s *server, key instKey, e *sim.Ev)            {}
+func (x *extState) leaderCommit(c *checker, s *server, key instKey, e *sim.Ev)                   {}
 func (x *extState) read(c *checker, s *server, e *sim.Ev) {
 	if e.X == "pv-after" {
 		x.pvRead(c, s, e)
